@@ -3,6 +3,7 @@ pub mod c05;
 #[macro_use]
 pub mod c14;
 pub mod c10;
+pub mod c15;
 pub mod c16;
 pub mod hist;
 
